@@ -189,7 +189,13 @@ crd write conv --command cmt`,
 		if err != nil {
 			return err
 		}
-		return writeYamlOutput(cmd, wArgs.instances)
+		// print the form that crd write reads, not the resolved chords;
+		// keep the flag overrides of the first instance
+		if len(instances) > 0 {
+			x, y := instances[0], wArgs.instances[0]
+			x.BPM, x.Velocity, x.Meter, x.Key = y.BPM, y.Velocity, y.Meter, y.Key
+		}
+		return writeYamlOutput(cmd, instances)
 	},
 }
 
